@@ -114,8 +114,40 @@ def parseLabelCol (j : Json) : Except String LabelCol := do
   | .error _ => pure (.name (textOf (← str (← field j "name"))))
 
 /-- text requests: the model reads the text itself (C12 reader model) before LabelRows / read -/
-def handleText (op : String) (req : Json) (given : Option LType) (probes : List Action) : Except String Json := do
+def handleText (op : String) (req : Json) (given : Option LType) (probes : List Action)
+    (res : Option (Nat × List C09.Step)) : Except String Json := do
   match op with
+  | "csv_take" =>
+    -- the reader (C12 model), then Reservoir (C09 model), then LabelRows / read
+    let lines := (← strList (← field req "lines")).map textOf
+    let delim ← nat (← field req "delim")
+    let hdr ← bool (← field req "header")
+    let lc ← parseLabelCol (← field req "label")
+    let out := csvSimT delim hdr lc given res lines
+    let look := match C12.csvReaderFix (C12.excel delim) hdr lines, lc with
+      | .ok (some h, _), .index i => lookups (h.map textStr) i out
+      | .ok (some h, _), .name nm => (match headerIndex h nm with | some i => lookups (h.map textStr) (i : Int) out | none => Json.null)
+      | _, _ => Json.null
+    pure (obj [("model", outToJson (ofList labelToJson) probes out), ("lookup", look)])
+  | "svm_take" =>
+    let lines := (← strList (← field req "lines")).map textOf
+    let manik ← bool (← field req "manik")
+    let ctx := ofList (fun (kv : C12.Text × C12.Text) => Json.arr #[textJson kv.1, textJson kv.2])
+    pure (obj [("model", outToJson ctx probes (if manik then manikSimT given res lines else libsvmSimT given res lines))])
+  | "arff_file" =>
+    -- the whole file (C12.arffRead: framing, dense / sparse), optional Reservoir, LabelRows (index or header name), read
+    let lines := (← strList (← field req "lines")).map textOf
+    let lc ← parseLabelCol (← field req "label")
+    match arffFileSim lc given res lines with
+    | .dense out =>
+      let look := match C12.arffRead lines, lc with
+        | .ok (.dense names _), .index i => lookups (names.map textStr) i out
+        | .ok (.dense names _), .name nm => (match headerIndex names nm with | some i => lookups (names.map textStr) (i : Int) out | none => Json.null)
+        | _, _ => Json.null
+      pure (obj [("model", outToJson (ofList labelToJson) probes out), ("lookup", look), ("shape", Json.str "dense")])
+    | .sparse out =>
+      pure (obj [("model", outToJson (ofList (fun (kv : Val × Label) => Json.arr #[valToJson kv.1, labelToJson kv.2])) probes out),
+                 ("shape", Json.str "sparse")])
   | "csv_text" =>
     let lines := (← strList (← field req "lines")).map textOf
     let delim ← nat (← field req "delim")
@@ -159,11 +191,11 @@ def handle (req : Json) : Except String Json := do
   let given := resolveGiven given0 tipe
   let take ← opt natList (fieldD req "take" Json.null)
   let probes ← (← arr (fieldD req "probes" (Json.arr #[]))).mapM parseAction
-  if op.endsWith "_text" then return ← handleText op req given probes
   let res ← opt (fun j => do
       let k ← nat (← field j "k")
       let steps ← (← arr (← field j "steps")).mapM parseStep
       pure (k, steps)) (fieldD req "res" Json.null)
+  if op.endsWith "_text" || op.endsWith "_take" || op == "arff_file" then return ← handleText op req given probes res
   let rows ← arr (← field req "rows")
   match op with
   | "pairs" =>
